@@ -1122,7 +1122,14 @@ def class_attr(ex, st, cref: ClassRef, attr, instance):
     yield ex.raise_(st, "AttributeError")
 
 
+_MISSING = object()
+
+
 def opaque_attr(ex, st, v: Opaque, attr):
+    written = st.ghost.get("opaque_fields", {}).get((str(v.t), attr), _MISSING)
+    if written is not _MISSING:
+        yield st, written
+        return
     spec = ex.db.opaque_attr(v.kind, attr)
     if spec is None:
         # an attribute of a collaborator the contracts do not know: an arbitrary value, the same at every
@@ -1172,6 +1179,15 @@ def setattr_(ex, st, ref, attr, v):
             yield ex.raise_(st, "AttributeError")
             return
         o.fields[attr] = v
+        yield st, None
+    elif isinstance(o, Opaque):
+        # assignment to an attribute of an abstract object: a recorded mutation of that object (unmodified() sees it);
+        # later reads of the attribute through the same term see the assigned value
+        written = dict(st.ghost.get("opaque_fields", {}))
+        written[(str(o.t), attr)] = v
+        st.ghost = {**st.ghost, "opaque_fields": written}
+        st.trace.append(("call", "setattr", o, (attr, v), ()))
+        st.trace.append(("mutate", o))
         yield st, None
     else:
         raise _U()(f"setattr on {o!r}")
